@@ -76,6 +76,15 @@ def tokenize(
                 else:
                     yield token
                     token = Token(source=formula)
+            elif not quote_context:
+                # Nothing was quoted (e.g. "``", "{}" or "%%"); this used to be
+                # silently skipped, leaving its span attached to the next token.
+                raise exc_for_token(
+                    Token(
+                        source=formula, source_start=token.source_start, source_end=i
+                    ),
+                    "Quoted names, expressions and operators cannot be empty.",
+                )
             continue
         if quote_context and char == quote_context[-1]:
             token.update(char, i)
